@@ -386,7 +386,7 @@ def with_schedule(scen, sched):
 
 def gen_mt_random(rng, hooks):
     scen, tids = gen_mt_scenario(rng, hooks)
-    n = rng.choice([6, 10, 16, 24, 40])
+    n = rng.choice([8, 12, 20, 30, 50])
     # runs of one thread and fine-grained alternation both occur
     sched = []
     while len(sched) < n:
@@ -493,8 +493,9 @@ def check(ctx):
         mult = 1 if proof_ok else 5
         rnd = [gen_history(rng, rng.choice([6, 12, 24, 40])) for _ in range((6000 if quick else 80000) * mult)]
         mtr = [gen_mt_random(rng, hooks) for _ in range((6000 if quick else 150000) * mult)]
-        mte = gen_mt_exhaustive(rng, hooks, 12 if quick else 120, 10)
-        mte3 = gen_mt_exhaustive(rng, hooks, 3 if quick else 30, 7, nt=3)
+        d2, d3 = (10, 7) if quick else (11, 8)
+        mte = gen_mt_exhaustive(rng, hooks, 12 if quick else 100, d2)
+        mte3 = gen_mt_exhaustive(rng, hooks, 3 if quick else 20, d3, nt=3)
         st = corpus + ex + rnd
         mt = mtr + mte + mte3
         ctx.cov["rule"] = (
@@ -502,15 +503,15 @@ def check(ctx):
             f"{sum(len(v) for v in SMALL.values())} ops (2-3 handles; self/other arguments; {len(ex)} histories"
             f"{'' if quick else ', sampled'}) + {len(rnd)} random histories of 6..40 ops over up to 4 handles of each kind; "
             f"multi-threaded: {len(mtr)} random scenarios (setup sharing payloads over the 4 handles of 1-2 kinds, 2-3 threads, 2-6 API calls) "
-            f"each under one random schedule of 6..40 entries + {len(mte) // 1024} scenarios of 2 threads under all 1024 "
-            f"schedules of their first 10 scheduling points + {len(mte3) // 2187} scenarios of 3 threads under all 2187 schedules "
-            f"of their first 7 points (counter-read hooks {'present' if hooks else 'ABSENT: plain reads are not scheduling points'}); "
+            f"each under one random schedule of 8..50 entries + {len(mte) // 2 ** d2} scenarios of 2 threads under all {2 ** d2} "
+            f"schedules of their first {d2} scheduling points + {len(mte3) // 3 ** d3} scenarios of 3 threads under all {3 ** d3} schedules "
+            f"of their first {d3} points; a thread is descheduled before and after every atomic operation on a payload counter (counter-read hooks {'present' if hooks else 'ABSENT: plain reads are not scheduling points'}); "
             "distinct_nontrivial = distinct (op-kind set, final observation) among histories in which a payload was shared")
         ctx.cov["exhaustive"] = False
         ctx.cov["open_statements"] = ["mt_safe_nested (handles nested inside shared payloads read concurrently: Props.lean OPEN block); "
                                       "payload content is flat in the model"]
         ctx.cov["exhaustive_scope"] = (f"single-threaded length<={depth} per kind: {len(ex)} histories; "
-                                       f"schedules: all of {{t1,t2}}^10 for {len(mte) // 1024} scenarios, all of {{t1,t2,t3}}^7 for {len(mte3) // 2187} scenarios")
+                                       f"schedules: all of {{t1,t2}}^{d2} for {len(mte) // 2 ** d2} scenarios, all of {{t1,t2,t3}}^{d3} for {len(mte3) // 3 ** d3} scenarios")
         ops = {}
         for h in st + mt:
             for l in h:
